@@ -107,8 +107,19 @@ pub fn child_case(c: &J) -> J {
 }
 
 /// Joins tokens of a TLC document into text (the soft-token mark "~" is dropped).
+/// The text of one token: the soft mark "~" is dropped, "<U+XXXX>" stands for that character.
+fn tok_text(t: &J) -> String {
+  let t = t.as_str().unwrap_or("").trim_start_matches('~');
+  if let Some(hex) = t.strip_prefix("<U+").and_then(|r| r.strip_suffix('>')) {
+    if let Some(c) = u32::from_str_radix(hex, 16).ok().and_then(char::from_u32) {
+      return c.to_string();
+    }
+  }
+  t.to_string()
+}
+
 fn join(toks: &J) -> String {
-  toks.as_array().map(|a| a.iter().map(|t| t.as_str().unwrap_or("").trim_start_matches('~').to_string()).collect::<Vec<_>>().join(" ")).unwrap_or_default()
+  toks.as_array().map(|a| a.iter().map(tok_text).collect::<Vec<_>>().join(" ")).unwrap_or_default()
 }
 
 /// String literals of the repository's test sources (plain and raw), unescaped approximately.
@@ -289,8 +300,9 @@ pub fn check(mut ctx: Ctx, replay: Option<J>) -> ! {
       let text = join(&c["toks"]);
       recs.push(json!({"src": "tlc", "fam": c["fam"], "text": text}));
       // the same tokens glued together (no separating blanks) for the operator-heavy families
-      if c["fam"] == "fault" && recs.len() % 4 == 0 {
-        let glued: String = c["toks"].as_array().map(|a| a.iter().map(|t| t.as_str().unwrap_or("").trim_start_matches('~')).collect::<Vec<_>>().join("")).unwrap_or_default();
+      let special_space = c["toks"].as_array().map_or(false, |a| a.iter().any(|t| t.as_str().map_or(false, |t| t.starts_with("<U+"))));
+      if c["fam"] == "fault" && (recs.len() % 4 == 0 || special_space) {
+        let glued: String = c["toks"].as_array().map(|a| a.iter().map(tok_text).collect::<Vec<_>>().join("")).unwrap_or_default();
         recs.push(json!({"src": "tlc", "fam": "glued", "text": glued}));
       }
     }
@@ -340,6 +352,17 @@ pub fn check(mut ctx: Ctx, replay: Option<J>) -> ! {
   let inputs: Vec<J> = recs.iter().map(|r| json!({"text": r["text"]})).collect();
   let results = run_in_children("c05", &tlc.work_dir, &inputs, 14, Duration::from_secs(20));
   let mut calls = 0u64;
+  // documents given up after the death budget of the child runner was spent are not judged
+  let skipped: Vec<bool> = results.iter().map(|r| r["skipped"] == true).collect();
+  if skipped.iter().any(|s| *s) {
+    ctx.cov("documents_not_run_after_too_many_deaths", json!(skipped.iter().filter(|s| **s).count()));
+    let mut k = 0;
+    recs.retain(|_| {
+      k += 1;
+      !skipped[k - 1]
+    });
+  }
+  let results: Vec<J> = results.into_iter().filter(|r| r["skipped"] != true).collect();
   for (r, res) in recs.iter_mut().zip(results.iter()) {
     let text = r["text"].as_str().unwrap_or("").to_string();
     r["iter"] = json!(is_iter(&text));
